@@ -52,6 +52,7 @@ type Contract struct {
 	Fresh       bool // result is freshly allocated (shorthand)
 	Pure        bool
 	Assumes     []Clause // assumed at entry but NOT required from callers (listed as assumptions)
+	Received    []Clause // assumed of every value received from a channel ($v)
 	Lemmas      []LemmaUse
 	Inline      bool
 	Uses        []string
@@ -112,7 +113,7 @@ type ContractSet struct {
 	Folds    map[string]*Fold
 }
 
-var reClauseHead = regexp.MustCompile(`^(requires|ensures|mustfail|assume|premise)(\[[A-Z0-9, ]+\])?\s+(?:([A-Za-z0-9_\-]+):\s+)?(.*)$`)
+var reClauseHead = regexp.MustCompile(`^(requires|ensures|mustfail|assume|premise|received)(\[[A-Z0-9, ]+\])?\s+(?:([A-Za-z0-9_\-]+):\s+)?(.*)$`)
 
 func splitProps(s string) []string {
 	s = strings.Trim(s, "[]")
@@ -171,7 +172,7 @@ func LoadContracts(cs *ContractSet, pkgPath, file string) error {
 		line int
 	}
 	var logical []ll
-	kw := regexp.MustCompile(`^(func|property|safety|requires|ensures|mustfail|assume|modifies|loop|trusted|assert|pred|implementers|axiom|lemma|fresh|pure|declare|inline|nopanic|uses|global|assumeframe|nonlinear|premise|fold|mapfold|ghost)\b`)
+	kw := regexp.MustCompile(`^(func|property|safety|requires|ensures|mustfail|assume|modifies|loop|trusted|assert|pred|implementers|axiom|lemma|fresh|pure|declare|inline|nopanic|uses|global|assumeframe|nonlinear|premise|fold|mapfold|ghost|received)\b`)
 	for i, l := range lines {
 		t := strings.TrimSpace(l)
 		if !strings.HasPrefix(t, "//@") {
@@ -355,7 +356,7 @@ func LoadContracts(cs *ContractSet, pkgPath, file string) error {
 				}
 				cur.Modifies = append(cur.Modifies, ml...)
 				cur.ModGiven = true
-			case "requires", "ensures", "mustfail", "assume", "premise":
+			case "requires", "ensures", "mustfail", "assume", "premise", "received":
 				m := reClauseHead.FindStringSubmatch(s)
 				if m == nil {
 					return fail(fmt.Errorf("bad clause"))
@@ -391,6 +392,12 @@ func LoadContracts(cs *ContractSet, pkgPath, file string) error {
 						cl.Label = fmt.Sprintf("a%d", len(cur.Assumes))
 					}
 					cur.Assumes = append(cur.Assumes, cl)
+				case "received":
+					// received [label:] expr over $v: assumed of every value this function receives from a channel
+					if cl.Label == "" {
+						cl.Label = fmt.Sprintf("v%d", len(cur.Received))
+					}
+					cur.Received = append(cur.Received, cl)
 				}
 			case "loop":
 				// loop N invariant [label:] expr   |  loop N modifies list
